@@ -8,6 +8,8 @@ pub mod c05;
 #[cfg(not(feature = "xen"))]
 pub mod c08;
 pub mod c09;
+pub mod c10;
+pub mod c13;
 pub mod c14;
 pub mod c19;
 pub mod c20;
@@ -25,6 +27,8 @@ pub fn dispatch(prop: &str, tier: Tier, replay: Option<String>) -> i32 {
         "C09" => c09::run(tier, replay),
         "C19" => c19::run(tier, replay),
         "C20" => c20::run(tier, replay),
+        "C10" => c10::run(tier, replay),
+        "C13" => c13::run(tier, replay),
         "C14" => c14::run(tier, replay),
         _ => {
             eprintln!("MACHINERY: unknown or unsupported property {} in this build", prop);
